@@ -38,7 +38,11 @@ ScopeOf(m) == <<m.path>> \o m.uses
 (* into a map keyed by name, so the last block of a name wins              *)
 ImplFuncs(m, name) ==
   LET i == LastIdx(m.impls, LAMBDA b : b.name = name)
-  IN IF i = 0 THEN <<>> ELSE m.impls[i].funcs
+      mine == SelectSeq(m.impls, LAMBDA b : b.name = name)
+  IN IF CHECKIMPLS THEN Flatten([k \in DOMAIN mine |-> mine[k].funcs])
+     ELSE IF i = 0 THEN <<>> ELSE m.impls[i].funcs
+(* an impl block whose name is no type definition of the module *)
+ImplOrphan(m) == \E i \in DOMAIN m.impls : ~\E j \in DOMAIN m.defs : m.defs[j].name = m.impls[i].name /\ m.defs[j].k = "type"
 
 (* ------------------------ statement scan ------------------------------- *)
 (* Fields in source order: a negative address fails, the first             *)
